@@ -47,7 +47,7 @@ def write_host_cache():
         os.chmod(tmpname, 384)  # 600 in octal, 'rw-------'
         os.rename(tmpname, CACHEFILE)
         CACHE_WRITE_FAILED = False
-    except (OSError, IOError):
+    except (OSError, IOError, UnicodeError):
         # Write message if we haven't yet or if we get a failure after
         # a previous success.
         if not CACHE_WRITE_FAILED:
@@ -65,7 +65,7 @@ def read_host_cache():
     """If possible, read the cache file from disk to populate hosts that
        were found in a previous sshuttle run."""
     try:
-        f = open(CACHEFILE)
+        f = open(CACHEFILE, errors='replace')
     except (OSError, IOError):
         _, e = sys.exc_info()[:2]
         if e.errno == errno.ENOENT:
@@ -118,7 +118,7 @@ def _check_etc_hosts():
     filename = '/etc/hosts'
     debug2(' > Reading %s on remote host' % filename)
     try:
-        for line in open(filename):
+        for line in open(filename, errors='replace'):
             line = re.sub(r'#.*', '', line)  # remove comments
             words = line.strip().split()
             if not words:
